@@ -2,6 +2,7 @@ import EpModel.Props.C03
 import EpModel.Lemmas.SpecSane
 import EpModel.Lemmas.StructSlice
 import EpModel.Props.C05
+import EpModel.Props.C07Limited
 /-
   C07 — length and content errors describe the real fault.
 
